@@ -1,34 +1,36 @@
 #!/bin/bash
-# usage: tools_seeded.sh <PID> <worktree> [name] [extra check ids...]
-# Confirms a seeded change (tests pass with it, demo fails with it / passes without), runs the property's check(s) against it on /repo, stores it under /verif/seeded/<name>/
+# usage: tools_seeded.sh <PID> <worktree-with-the-change> [name] [extra check ids...]
+# Confirms a seeded change (suite passes with it, demo fails with it / passes without) in scratch worktrees, runs the property's check(s)
+# against it, stores it under /verif/seeded/<name>/.  The change is evaluated in a scratch worktree of /repo (VERIF_REPO), never in /repo itself.
 set -u
 PID=$1; WT=$2; NAME=${3:-$PID}; shift 3 2>/dev/null || shift $#
 EXTRA="$@"
 OUT=/verif/seeded/$NAME
+EVAL=/tmp/verif_eval_$NAME
 mkdir -p $OUT
-cd $WT || exit 9
-git diff -- src > $OUT/patch.diff
+# the agent's own mutant.patch is authoritative (the worktree state may have been disturbed); fall back to the worktree diff
+if [ -s $WT/mutant.patch ]; then cp $WT/mutant.patch $OUT/patch.diff; else ( cd $WT && git diff -- src ) > $OUT/patch.diff; fi
 [ -s $OUT/patch.diff ] || { echo "empty patch"; exit 9; }
-cp demo.py $OUT/demo.py 2>/dev/null
-# 1. tests with the change
-T=$(PYTHONPATH=$WT/src /venv/bin/python -m pytest -q -p no:cacheprovider --timeout=900 -n 8 2>&1 | tail -1)
+cp $WT/demo.py $OUT/demo.py 2>/dev/null
+git -C /repo worktree remove --force $EVAL 2>/dev/null
+git -C /repo worktree add -q $EVAL HEAD || exit 9
+cp $OUT/demo.py $EVAL/demo.py
+# without the change
+(cd $EVAL && PYTHONPATH=$EVAL/src timeout 900 /venv/bin/python demo.py >/dev/null 2>&1); D0=$?
+git -C $EVAL apply $OUT/patch.diff || { echo "patch does not apply to /repo HEAD"; git -C /repo worktree remove --force $EVAL; exit 9; }
+# with the change: suite + demo
+T=$(cd $EVAL && PYTHONPATH=$EVAL/src /venv/bin/python -m pytest -q -p no:cacheprovider --timeout=900 -n 8 2>&1 | tail -1)
+(cd $EVAL && PYTHONPATH=$EVAL/src timeout 900 /venv/bin/python demo.py >/dev/null 2>&1); D1=$?
 echo "tests with change: $T"
-# 2. demo with / without
-(cd $WT && PYTHONPATH=$WT/src timeout 600 /venv/bin/python demo.py >/dev/null 2>&1); D1=$?
-git stash -q; (cd $WT && PYTHONPATH=$WT/src timeout 600 /venv/bin/python demo.py >/dev/null 2>&1); D0=$?; git stash pop -q
 echo "demo exit with change: $D1 ; without: $D0"
-# 3. checks against the change applied to /repo
-git -C /repo diff --quiet || { echo "/repo dirty"; exit 9; }
-git -C /repo apply $OUT/patch.diff || { echo "patch does not apply to /repo"; exit 9; }
 RES=""
 for C in $PID $EXTRA; do
-  (cd /verif && timeout 3000 ./check $C --tier quick --no-evidence > $OUT/check_$C.log 2>&1); RC=$?
+  (cd /verif && VERIF_REPO=$EVAL timeout 3000 ./check $C --tier quick --no-evidence > $OUT/check_$C.log 2>&1); RC=$?
   V=$(grep -c "^VIOLATION" $OUT/check_$C.log)
   echo "check $C: exit $RC, VIOLATION lines $V"
   RES="$RES $C:exit$RC"
 done
-git -C /repo checkout -- .
-git -C /repo status --short | head -3
+git -C /repo worktree remove --force $EVAL
 python3 - "$PID" "$NAME" "$T" "$D1" "$D0" "$RES" "$WT" <<'PY'
 import json,sys,os
 pid,name,t,d1,d0,res,wt=sys.argv[1:8]
@@ -37,6 +39,6 @@ try: meta=json.load(open(os.path.join(wt,'meta.json')))
 except Exception: pass
 out=dict(property=pid, summary=meta.get('summary'), needs=meta.get('needs'), files=meta.get('files'),
          confirmed=dict(tests_with_change=t, demo_exit_with_change=int(d1), demo_exit_without_change=int(d0)),
-         checks_run=res.split(), how="patch applied to /repo (git apply), ./check <id> --tier quick, then git checkout -- .")
+         checks_run=res.split(), how="patch applied in a scratch worktree of /repo HEAD (git apply); full test suite and demo.py run there; ./check <id> --tier quick run with VERIF_REPO pointing at it; worktree removed")
 json.dump(out, open(f'/verif/seeded/{name}/meta.json','w'), indent=1)
 PY
